@@ -1,7 +1,7 @@
 (* Extract.v — OCaml extraction of the executable model (ExtrOcamlBasic only: bool, option, list,
    prod, unit, sumbool map to OCaml's; N, positive, nat stay the extracted inductive types). *)
 From Coq Require Extraction ExtrOcamlBasic.
-From CsModel Require Import Base Green Builder BuilderSpec BuilderProofs Interner Red Nav GreenEq Replace TokenText Preorder Fmt Serde Derive AutoTrait TextView Extracted.
+From CsModel Require Import Base Green Builder BuilderSpec BuilderProofs Interner Red Nav GreenEq Replace TokenText Preorder Fmt Serde Derive AutoTrait TextView Conc Extracted.
 Extraction Language OCaml.
 Extraction "model.ml"
   utf8_width byte_len text_eqb
@@ -11,8 +11,9 @@ Extraction "model.ml"
   abbrev abbrev_len abbrev_lo abbrev_hi debug_lines display_of
   ser_events ser_data deser_tree attach serde_token_text_ty
   is_send is_sync constructible node_send_bounds node_sync_bounds ctor_resolver_bounds green_token_unconditional
-  expand from_raw into_raw static_text_of
+  Derive.expand from_raw into_raw static_text_of
   tok_ranges chunks v_len v_is_empty v_to_string v_contains v_find v_char_at v_slice v_eq_str v_eq_view
+  cinit crun all_done block_of
   text_eq text_eq_old
   nav_exec nav_run
   subr offset_of len_at is_node_at kids parent_of ancestors
